@@ -256,7 +256,8 @@ class KGen:
                 is_async = False      # a gated factory would suspend the call: use the sync API instead
             others = [{"name": f"x{i}", "kind": rng.choice(["normal", "kwonly"]), "has_default": rng.random() < 0.4,
                        "pass": rng.random() < 0.5} for i in range(rng.randint(0, 3))]
-            op = {"op": "inject", "t": t, "async": is_async, "deps": deps, "others": others, "badUnion": False}
+            op = {"op": "inject", "t": t, "async": is_async, "deps": deps, "others": others, "badUnion": False,
+                  "future": rng.random() < 0.4}
             if rng.random() < 0.04:
                 op["badUnion"] = True
                 deps[0]["form"] = "badunion"
@@ -275,7 +276,7 @@ class KGen:
                         seen_default = True
                     elif seen_default:
                         p["dflt"] = "value"
-            return {"op": "decorate", "t": t, "params": [{**p, "annot": p["annot"]} for p in ps]}
+            return {"op": "decorate", "t": t, "future": rng.random() < 0.4, "params": [{**p, "annot": p["annot"]} for p in ps]}
         if kind == "spawn":
             if len(self.stacks) >= self.max_tasks:
                 return None
